@@ -531,7 +531,14 @@ func vtC09BGen(r *rand.Rand, i int) (string, []int64) {
 		if r.Intn(5) == 0 {
 			delta = 1
 		}
-		if r.Intn(6) == 0 {
+		if r.Intn(8) == 0 {
+			k := 2 + r.Intn(2) // cpu / memory reclaim threshold: lowering it raises the safety margin
+			d := int64(1 + r.Intn(30))
+			if d > in[2+k] {
+				d = in[2+k]
+			}
+			in[0], in[1] = int64(k), -d
+		} else if r.Intn(6) == 0 {
 			k := 10 + r.Intn(2) // allocCPU / allocMem
 			in[0], in[1] = int64(k), -delta
 			if in[2+k]+in[1] < 0 {
